@@ -8,6 +8,8 @@ spec = {
   "attrs": {"<i>": {name: value}},              # optional extra attributes
   "extra": [[k, i], ...],                       # edge k additionally lists vertex i (not one of its ends)
   "edges_gone": [[cls, i, j, "l"|"v"|"s", pos]], # former links (i != j), created at creation position pos, removed again
+  "half": [[k, 0|1], ...],                      # edge k lost that end (Vertex.remove_from_link): 1-entry end list
+  "laws": {rule: bool} | None,                  # non-default (or no) laws on the universe
   "uni_gone": [[i, "u"|"v"], ...],              # non-members that were members once and left (universe / vertex side)
 }
 """
@@ -18,6 +20,10 @@ import itertools
 import random
 
 from egverif import zoo
+
+
+_ECLS = {**zoo.EDGE_CLASSES, **zoo.SPEC_ONLY_EDGE_CLASSES}
+_VCLS = {**zoo.VERTEX_CLASSES, **zoo.SPEC_ONLY_VERTEX_CLASSES}
 
 
 class Built:
@@ -56,11 +62,11 @@ def build(spec) -> Built:
         kw = {"attributes": a}
         if str(i) in uids:
             kw["uid"] = uids[str(i)]  # uids are user-assignable and nothing makes them unique
-        g.verts.append(zoo.VERTEX_CLASSES[cname](**kw))
+        g.verts.append(_VCLS[cname](**kw))
     for k, ed in enumerate(spec["edges"]):
         cname, i, j = ed[0], ed[1], ed[2]
         tag = ed[3] if len(ed) > 3 else k
-        e = zoo.EDGE_CLASSES[cname](
+        e = _ECLS[cname](
             g.verts[i], g.verts[j], attributes={"tag": tag, "eidx": k}
         )
         g.edges.append(e)
@@ -82,12 +88,14 @@ def build(spec) -> Built:
             if kind == "real":
                 ed = spec["edges"][k]
                 tag = ed[3] if len(ed) > 3 else k
-                g.edges[k] = zoo.EDGE_CLASSES[ed[0]](g.verts[ed[1]], g.verts[ed[2]], attributes={"tag": tag, "eidx": k})
+                g.edges[k] = _ECLS[ed[0]](g.verts[ed[1]], g.verts[ed[2]], attributes={"tag": tag, "eidx": k})
             else:
                 cname, i, j, path, pos = gone[k]
-                ghosts.append((zoo.EDGE_CLASSES[cname](g.verts[i], g.verts[j], attributes={"tag": 0, "eidx": -1 - k}), path))
+                ghosts.append((_ECLS[cname](g.verts[i], g.verts[j], attributes={"tag": 0, "eidx": -1 - k}), path))
         for e, path in ghosts:
             a, b = e.v1, e.v2
+            if path == "s" and not isinstance(e, zoo.TwoEndedLink):
+                path = "l"  # a link class of the user's own: no assignable ends
             if path == "l":
                 e.unlink_from(a)
                 e.unlink_from(b)
@@ -101,8 +109,15 @@ def build(spec) -> Built:
         # a two-ended link that also lists a further vertex (Link.add_vertex): its ends stay v1 / v2
         if k < len(g.edges):
             g.edges[k].add_vertex(g.verts[i])
+    for k, which in spec.get("half") or []:
+        # an edge that LOST one end through the public API (the vertex let go of it): its end list has one entry
+        if k < len(g.edges) and len(g.edges[k].vertices) == 2 and g.edges[k].vertices[0] is not g.edges[k].vertices[1]:
+            g.edges[k].vertices[which].remove_from_link(g.edges[k])
     if spec.get("uni") is not None:
         g.uni = zoo.FalsyUniverse() if spec.get("uni_cls") == "FalsyUniverse" else zoo.Universe()
+        if "laws" in spec:
+            # laws are declarative: whatever they say, the universe holds the graph it holds
+            g.uni.laws = None if spec["laws"] is None else zoo.UniverseLaws(**spec["laws"])
         # former members: they joined first and left again (from the universe's or from their own side) once
         # everybody was in; the final membership and its order are exactly spec["uni"]
         gone = [x for x in (spec.get("uni_gone") or []) if x[0] not in spec["uni"] and x[0] < len(g.verts)]
@@ -119,9 +134,13 @@ def build(spec) -> Built:
 
 
 VCLS_PLAIN = ["Vertex"]
-VCLS_MIX = ["Vertex", "Vertex", "VSub", "VSubSub", "FalsyVertex", "EmptyVertex", "Universe", "VBoth", "VFancy", "StrVertex", "VSlots"]
+VCLS_MIX = ["Vertex", "Vertex", "VSub", "VSubSub", "FalsyVertex", "EmptyVertex", "Universe", "VBoth", "VFancy", "StrVertex", "VSlots", "VCallable"]
 ECLS_DU = ["DirectedEdge", "UnDirectedEdge", "DSub", "DSubSub", "USub", "MixEdge", "FalsyEdge", "RenamedEdge", "PosOnlyEdge"]
 ECLS_ALL = ECLS_DU + ["OtherLink", "OtherLink2", "TwoEndedLink"]
+# + a two-ended link built directly on Link, and a second unknown class that is also called OtherLink
+ECLS_X = ECLS_ALL + ["DuckLink", "OtherLink~"]
+# + classes sharing their __name__ with another class, and a class with callable instances
+VCLS_X = VCLS_MIX + ["Vertex~", "VSub~"]
 
 
 def features(spec) -> set:
@@ -157,6 +176,8 @@ def features(spec) -> set:
             f.add("former_members")
     if spec.get("edges_gone"):
         f.add("former_links")
+    if spec.get("uni") is not None and "laws" in spec:
+        f.add("non_default_laws")
     return f
 
 
@@ -189,6 +210,8 @@ def rand_spec(rng: random.Random, nmax=6, mmax=12, vcls=VCLS_MIX, ecls=ECLS_ALL,
         spec["edges_gone"] = gone
     if uni is not None and rng.random() < 0.25:
         spec["uni_cls"] = "FalsyUniverse"
+    if uni is not None and rng.random() < 0.3:
+        spec["laws"] = None if rng.random() < 0.15 else {k: rng.random() < 0.5 for k in ("mixed_links", "cycles", "multipath", "multiverse")}
     if uni is not None and len(set(uni)) < n and rng.random() < 0.4:
         spec["uni_gone"] = [[i, rng.choice("uv")] for i in range(n) if i not in uni and rng.random() < 0.7]
     if rng.random() < 0.25:
